@@ -193,12 +193,12 @@ PType(r, seg) == IF PCn(r, seg) < PExpect(r, seg) THEN "DEL" ELSE "DUP"
 Proj(seq, F(_)) == [k \in Idx(seq) |-> F(seq[k])]
 
 (* ---- A-layer: export_bed *)
-ACnBed(r, seg) ==                      \* segments["cn"]  or  absolute_pure(...).round()
+ACnBedAsItWas(r, seg) ==               \* segments["cn"]  or  absolute_pure(...).round()  -- before the repair (finding BedParCopies)
     IF r.hascn THEN RCn(seg)
     ELSE RoundRQ(ExRefCopiesPure(RPfx(seg), RBase(seg), r.ploidy, r.hapx), RQn(seg), RQd(seg))
 (* what the repair proposed with finding BedParCopies computes (absolute_dataframe, as export_vcf does); *)
-(* when the repair is made, ACnBed becomes this operator and the finding is closed                       *)
-ACnBedRepaired(r, seg) ==
+(* the repair has been made (fix: commit in /repo): ACnBed is this operator, the finding is closed       *)
+ACnBed(r, seg) ==                      \* the repaired code: absolute_dataframe, as export_vcf
     IF r.hascn THEN RCn(seg)
     ELSE RoundRQ(ExRefCopiesA(FirstPfx(r.tab), RName(seg), RS(seg), RE(seg), r.ploidy, r.hapx, r.genome),
                  RQn(seg), RQd(seg))
